@@ -1,18 +1,24 @@
 """C10 - the SRT reader reproduces every cue's time, lines and formatting exactly.
 
-Theorems: coq/Properties/C10.v (exact times for every digit string of the pattern; round trip
-read(print f) = cues f for every grammar-conforming file on which no recorded trigger fires; tag
-scoping for one cue text; tolerance of counters / blank runs / hour width / white space /
-terminators), refuted statements in coq/Findings/C10.v.
+Theorems: coq/Properties/C10.v (exact times for every digit string of the pattern and every clock of the grammar;
+round trip read(print f) = cues f for EVERY grammar-conforming file through either kind of stream; tag scoping
+for one cue text; tolerance of counters / blank runs / hour width / white space / terminators / stream; reading
+every text of the form the SRT writer emits returns the cues written, below 1000 h), the one refuted statement
+in coq/Findings/C10.v.
 
 Ties, all evaluated inside Coq on generated case files:
   * M = code : Model/SrtReader.v `to_model` against ttconv.srt.reader.to_model on (a) files printed from
     random abstract cue files of the grammar of Spec/SrtCueSpec.v, (b) outputs of ttconv.srt.writer
-    over random documents built with the ttconv.model API, (c) a malformed stream (mutations, odd tags,
-    entities, colours).  Compared: None / exception class / per paragraph begin and end (type must be
-    Fraction or int, value exact) and the whole Span/Br/Text tree with the styles specified on each span.
+    over random documents built with the ttconv.model API, (c) a mutation stream (grammar files with
+    snippets inserted / deleted / duplicated, hand-made cues of odd tags, entities, colours), (d) an
+    unconstrained stream (no cue structure imposed: tags of any name balanced or not, brace tags, CR / LF /
+    CR LF / LF CR mixtures, BOM, blank-looking lines, counters and timing lines in any place).
+    Compared: None / exception class / per paragraph begin and end (type must be Fraction or int, value
+    exact) and the whole Span/Br/Text tree with the styles specified on each span.
   * S on the code : for (a) and (b) the flattened styled characters of the implementation's result must
     equal `cues f`; the text fed to the implementation is checked to be `print_file f` with `wf_file f`.
+    For (b) in addition the output is parsed into the writer description (Spec/SrtWriterOut.v `list wcue`),
+    Coq checks `wprint cs = output` and `wwf cs`, and the result read must equal `map wmeaning cs`.
 """
 import io, os, re, sys, json, logging
 from fractions import Fraction
@@ -142,8 +148,10 @@ def gen_colspec(rng):
     return ("n", rng.randrange(len(SPEC_COLORS)), rng.random() < 0.2)
 
 
-def gen_nodes(rng, depth, st):
-    """st: dict with remaining line breaks `br`, feature switches"""
+def long_syn(sy): return sy in ("AngleLong", "BraceLong")
+
+def gen_nodes(rng, depth, st, ctx=None):
+    """st: dict with remaining line breaks `br`, feature switches; ctx = (kind, syntax) of the directly enclosing b/i/u tag"""
     out = []
     for _ in range(rng.choice([1, 1, 2, 2, 3, 4])):
         x = rng.random()
@@ -158,12 +166,15 @@ def gen_nodes(rng, depth, st):
         elif x < 0.60 and st["br"] > 0:
             st["br"] -= 1; out.append(("br",))
         elif x < 0.82 and st["tags"]:
-            sy = rng.choice(st["syn"])
-            out.append(("t", rng.choice(["KB", "KI", "KU"]), sy, gen_nodes(rng, depth + 1, st)))
+            sy = rng.choice(st["syn"]); k = rng.choice(["KB", "KI", "KU"])
+            out.append(("t", k, sy, gen_nodes(rng, depth + 1, st, (k, sy))))
         elif x < 0.93 and st["tags"]:
             out.append(("f", gen_colspec(rng), rng.choice(["QDouble", "QDouble", "QSingle", "QBare"]), gen_nodes(rng, depth + 1, st)))
         elif st["stray"] and rng.random() < 0.5:
-            out.append(("s", rng.choice(["KB", "KI", "KU"]), rng.choice(["AngleShort", "AngleLong", "BraceLong"])))
+            k = rng.choice(["KB", "KI", "KU"]); sy = rng.choice(["AngleShort", "AngleLong", "AngleUpper", "BraceLong", "BraceShort"])
+            # a closer that closes nothing must not name the directly enclosing tag (Spec: stray_ok)
+            if ctx is None or not (ctx[0] == k and long_syn(ctx[1]) == long_syn(sy)): out.append(("s", k, sy))
+            else: out.append(("c", ord(gen_char(rng))))
         else:
             out.append(("c", ord(gen_char(rng))))
     return out
@@ -215,12 +226,11 @@ def gen_file(rng, feat):
 
 def gen_features(rng):
     x = rng.random()
-    feat = dict(tags=True, refs=True, stray=False, backslash=False, syn=["AngleShort", "AngleShort", "AngleLong", "AngleUpper", "BraceLong"])
+    feat = dict(tags=True, refs=True, stray=False, backslash=False, syn=["AngleShort", "AngleShort", "AngleLong", "AngleUpper", "BraceLong", "BraceShort"])
     if x < 0.15: feat.update(tags=False, refs=False)                 # plain text only
     elif x < 0.25: feat.update(refs=False)
-    elif x < 0.31: feat["syn"] = feat["syn"] + ["BraceShort"]; feat["small"] = True
-    elif x < 0.37: feat["stray"] = True; feat["small"] = True
-    elif x < 0.40: feat["backslash"] = True; feat["small"] = True
+    elif x < 0.45: feat["stray"] = True                               # closers that close nothing
+    elif x < 0.50: feat["backslash"] = True                           # the four characters \n\r as text
     return feat
 
 
@@ -233,6 +243,7 @@ def gen_doc(rng):
     b = m.Body(d); d.set_body(b); b.set_region(r)
     t = Fraction(rng.randrange(0, 5000), 1000)
     if rng.random() < 0.1: t += rng.choice([3600, 36000, 360000 - 40, 99 * 3600])
+    if rng.random() < 0.04: t += rng.choice([3600000 - 2, 3600000, 999 * 3600 + 3590, 12345 * 3600])     # around and beyond 999 h
     def styled(e):
         if rng.random() < 0.3: e.set_style(SP.FontWeight, s.FontWeightType.bold)
         if rng.random() < 0.3: e.set_style(SP.FontStyle, s.FontStyleType.italic)
@@ -314,6 +325,50 @@ def deparse(txt):
     return f if print_file(f) == txt else None
 
 
+# ---- the writer's output as the abstract description of Spec/SrtWriterOut.v (list wcue); None when it is not of that form
+WTC_RE = re.compile(r"^(\d{2,}):(\d{2}):(\d{2}),(\d{3}) --> (\d{2,}):(\d{2}):(\d{2}),(\d{3})$")
+
+def deparse_w(txt):
+    if txt == "": return []
+    if not txt.endswith("\n") or "\r" in txt: return None
+    cues = []
+    for b in txt[:-1].split("\n\n"):
+        ls = b.split("\n")
+        if len(ls) < 3 or not ls[0].isascii() or not ls[0].isdigit(): return None
+        mt = WTC_RE.match(ls[1])
+        if not mt: return None
+        g = [int(x) for x in mt.groups()]
+        if (len(mt.group(1)) > 2 and mt.group(1)[0] == "0") or (len(mt.group(5)) > 2 and mt.group(5)[0] == "0"): return None
+        payload = deparse_payload("\n".join(ls[2:]))
+        if payload is None or not payload_ok(payload): return None
+        def wn(ns):
+            out = []
+            for n in ns:
+                if n[0] == "c": out.append(("c", n[1]))
+                elif n[0] == "br": out.append(("br",))
+                elif n[0] == "t": out.append(({"KB": "WBold", "KI": "WItalic", "KU": "WUnder"}[n[1]], wn(n[3])))
+                elif n[0] == "f": out.append(("WFont", n[1][1:5], wn(n[3])))
+                else: return None
+                if out[-1] is None or (len(out[-1]) > 1 and out[-1][-1] is None): return None
+            return out
+        wp = wn(payload)
+        if wp is None: return None
+        cues.append(dict(counter=ls[0], begin=((g[0] * 60 + g[1]) * 60 + g[2]) * 1000 + g[3], end=((g[4] * 60 + g[5]) * 60 + g[6]) * 1000 + g[7], payload=wp))
+    return cues
+
+def l_wnodes(ns):
+    out = []
+    for n in ns:
+        if n[0] == "c": out.append(f"WChar {n[1]}")
+        elif n[0] == "br": out.append("WBreak")
+        elif n[0] == "WFont": out.append(f"WFont {n[1][0]} {n[1][1]} {n[1][2]} {n[1][3]} {l_wnodes(n[2])}")
+        else: out.append(f"{n[0]} {l_wnodes(n[1])}")
+    return "[" + ";".join(out) + "]"
+
+def l_wcues(cs):
+    return "[" + ";".join(f"W {C.text(c['counter'])} {c['begin']} {c['end']} {l_wnodes(c['payload'])}" for c in cs) + "]"
+
+
 # ---- malformed / out-of-grammar texts
 SNIPPETS = ["<", ">", "</", "</b>", "<b>", "<i>", "</i>", "<u>", "&", "&amp", "&amp;", "&#", "&#65", "&#x41;", "&lt", "&notit;", "&copy", ";", "{", "}", "{b}", "{/b}",
             "{bold}", "{/italic}", "\\n\\r", "\n", "\n\n", "\r", "\r\n", " ", "\t", "-->", "->", ":", ",", ".", "0", "12", "<br>", "<br/>", "<br />", "<font>",
@@ -340,6 +395,70 @@ def gen_handmade(rng):
     body = "".join(rng.choice(SNIPPETS + ["a", "b c", "xyz", "\n", " "]) for _ in range(rng.choice([1, 2, 3, 5, 8])))
     tailcue = rng.choice(["", "\n\n2\n00:00:05,000 --> 00:00:06,000\nnext\n", "\n\n2\n00:00:05,000 --> 00:00:06,000\n\n3\n00:00:07,000 --> 00:00:08,000\nz\n"])
     return H + body + "\n" + tailcue
+
+
+# ---- unconstrained stream: no cue structure is imposed; pieces are drawn from an alphabet in which tags (balanced or not, any
+# name, any case), brace tags, CR / LF / CR LF / LF CR in any mixture, a byte-order mark, blank-looking lines (white space that
+# `\s` matches and look-alikes that it does not), counters, timing lines and arrows all occur, so that every state of the line
+# machine meets every kind of line, and the tag stack meets every order of openers and closers
+U_TAGS = ["b", "i", "u", "bold", "italic", "underline", "B", "I", "Bold", "font", "x", "br", "p", "FONT", "b.c", "b-1", "a:b"]
+U_BLANKISH = ["", " ", "\t", "  \t ", "\x0b", "\x0c", "\x1c", "\x1f", "\x85", "\xa0", "\u2003", "\u3000", "\u200b", "\ufeff", "\u2028", "\u180e", "\x00", "\x08"]
+U_EOLS = ["\n", "\n", "\n", "\r\n", "\r\n", "\r", "\n\r", "\r\r\n", "\n\n", "\r\n\r\n", ""]
+U_TEXT = ["a", "xyz", "Hello", "é", "1", "42", "0", "٣", "&amp;", "&", "&#10;", "&#13;", "&lt;b&gt;", "{", "}", "<", ">", "/", "\\n\\r", "\\n", "-->", "=", "\"", "'", "#ff0000", " ", "  "]
+
+def u_tag(rng):
+    x = rng.random(); n = rng.choice(U_TAGS)
+    if x < 0.30: return "<%s>" % n
+    if x < 0.60: return "</%s>" % n
+    if x < 0.70: return "{%s}" % n
+    if x < 0.80: return "{/%s}" % n
+    if x < 0.84: return "<%s/>" % n
+    if x < 0.88: return "</%s%s>" % (rng.choice([" ", "\t", "\x0b", ""]), n) if rng.random() < 0.5 else "</%s%s>" % (n, rng.choice([" ", " x", "\x0b", "/", "$", "\n"]))
+    if x < 0.94: return rng.choice(['<font color="%s">', "<font color='%s'>", "<font color=%s>", '<FONT COLOR="%s">', '<font size="2" color="%s">']) % \
+                        rng.choice(["red", "#00ff00", "#0000ff80", "Blue", "zzz", "", "rgb(1,2,3)", "rgba(1,2,3,4)", "#12", "é"])
+    return rng.choice(["<font>", "<font color>", "</font>", "</>", "</ >", "<>", "< b>", "<b", "</b", "<!-- c -->", "<!x>", "<![CDATA[x]]>", "<![a", "<?pi?>", "<script>", "<b x='>'>", "<b\n>"])
+
+def u_timing(rng):
+    a = p_clock(gen_clock(rng)); b = p_clock(gen_clock(rng)); x = rng.random()
+    if x < 0.55: return a + rng.choice([" ", " ", "  ", "\t", "\xa0", "\x0b"]) + "-->" + rng.choice([" ", " ", "\t ", "\u3000"]) + b + rng.choice(["", "", " X1:1", "9"])
+    if x < 0.65: return rng.choice(["", " ", "x", "9", "\ufeff"]) + a + " --> " + b
+    if x < 0.72: return a + "-->" + b
+    if x < 0.79: return a.replace(",", ".") + " --> " + b.replace(",", ".")
+    if x < 0.86: return str(rng.randrange(1000, 20000)) + a[2:] + " --> " + b
+    if x < 0.93: return a + " --> " + str(rng.randrange(1000, 20000)) + b[2:]
+    return a[1:] + " --> " + b
+
+def u_text_line(rng):
+    return "".join(u_tag(rng) if rng.random() < 0.45 else rng.choice(U_TEXT) if rng.random() < 0.8 else rng.choice(U_BLANKISH)
+                   for _ in range(rng.choice([1, 2, 3, 4, 6, 9])))
+
+def u_any_line(rng):
+    x = rng.random()
+    if x < 0.16: return rng.choice(["1", "2", "10", " 7 ", "x", "cue 3", "٣", "", "\ufeff1"])
+    if x < 0.36: return u_timing(rng)
+    if x < 0.50: return rng.choice(U_BLANKISH) * rng.choice([1, 1, 2])
+    return u_text_line(rng)
+
+def gen_unconstrained(rng):
+    """20 %: any lines in any order.  80 %: the order counter / timing / text lines / separator is kept so that the text parser is
+    reached, but each line is only probably what its place asks for, the text lines are unconstrained, and every line ends in
+    its own choice of terminator"""
+    out = []
+    if rng.random() < 0.25: out.append("\ufeff")
+    eols = U_EOLS if rng.random() < 0.6 else [rng.choice(["\n", "\r\n", "\r"])] * 6 + U_EOLS
+    if rng.random() < 0.2:
+        for _ in range(rng.choice([1, 2, 3, 5, 8, 12, 20])): out.append(u_any_line(rng) + rng.choice(eols))
+        return "".join(out)
+    heol = lambda: rng.choice(["\n", "\r\n"]) if rng.random() < 0.92 else rng.choice(eols)      # terminators of counter / timing lines: mostly sane
+    for k in range(rng.choice([1, 1, 1, 2, 2, 3, 5])):
+        for _ in range(rng.choice([0, 0, 0, 1, 2])): out.append(rng.choice(["", " ", "\t", "\x0c", "\xa0"]) + heol())
+        out.append((str(k + 1) if rng.random() < 0.93 else u_any_line(rng)) + heol())
+        out.append((p_clock(gen_clock(rng)) + rng.choice([" ", " ", "\t", "\xa0 "]) + "-->" + rng.choice([" ", " ", "  "]) + p_clock(gen_clock(rng))
+                    if rng.random() < 0.9 else u_timing(rng) if rng.random() < 0.7 else u_any_line(rng)) + heol())
+        for _ in range(rng.choice([0, 1, 1, 1, 2, 2, 3, 4])):
+            out.append((u_text_line(rng) if rng.random() < 0.9 else u_any_line(rng)) + rng.choice(eols))
+        out.append(rng.choice(["", "", "", "", " ", "\t", "\x0b", "\x1c", "\xa0", "\u3000", "\u200b", "\ufeff", "\x00"]) + (rng.choice(["\n", "\r\n"]) if rng.random() < 0.8 else rng.choice(eols)))
+    return "".join(out)
 
 
 # ------------------------------------------------------------------------------------------------
@@ -401,6 +520,7 @@ def run_impl(txt, translated):
     except TypeError: return ("raised", "ETypeError")
     except AttributeError: return ("raised", "EAttributeError")
     except ValueError: return ("raised", "EValueError")
+    except AssertionError: return ("raised", "EAssertionError")     # html.parser on a malformed markup declaration (recorded under C18); M: Unmodelled
     except Exception as e: return ("shape", "exception " + type(e).__name__ + ": " + str(e)[:100])
     if doc is None: return ("none",)
     try:
@@ -442,27 +562,25 @@ def flat(o):
 
 
 # ------------------------------------------------------------------------------------------------
-HEADER = ("From TT Require Import Base.Prelude Base.SrtTypes Gen.SrtTables Model.SrtReader Spec.SrtCueSpec Model.SrtReaderCases.\n"
+HEADER = ("From TT Require Import Base.Prelude Base.SrtTypes Gen.SrtTables Model.SrtReader Spec.SrtCueSpec Spec.SrtWriterOut Model.SrtReaderCases.\n"
           "From Coq Require Import QArith.\nLocal Open Scope Z_scope.\n")
-GEVALS = ["print_ok", "(fun g => model_ok (tc_of g))", "(fun g => modelled (tc_of g))", "spec_ok", "spec_strict", "model_spec",
-          "(fun g => negb (trig_brace g))", "(fun g => negb (trig_stray g))", "(fun g => negb (trig_backslash g))", "(fun g => negb (trig_crlf g))"]
+GEVALS = ["print_ok", "(fun g => model_ok (tc_of g))", "(fun g => modelled (tc_of g))", "spec_ok", "model_spec"]
 TEVALS = ["model_ok", "modelled"]
-FINDING_WITNESSES = {
-    "brace-short-tags": "1\n00:00:01,000 --> 00:00:02,000\n{b}x{/b}\n",
-    "stray-end-tag": "1\n00:00:01,000 --> 00:00:02,000\na</b>c\n",
-    "literal-backslash-n-backslash-r": "1\n00:00:01,000 --> 00:00:02,000\nC:\\n\\r\n",
-    "crlf-kept-in-untranslated-stream": "1\r\n00:00:01,000 --> 00:00:02,000\r\na\r\nb\r\n",
-}
+WEVALS = ["wprint_ok", "wspec_ok", "wspec_strict", "(fun w => negb (wtrig_hours w))", "wmodel_spec"]
+HOURS_FINDING = "hours-beyond-999-rejected"
 
 
-def witness_fires(fid):
-    """does the recorded finding still show on the implementation?"""
-    o = run_impl(FINDING_WITNESSES[fid], False)
-    if fid == "brace-short-tags": return o[0] == "ok" and any(ch == "{" for p in flat(o) for ch, *_ in p[2] if ch != "br")
-    if fid == "stray-end-tag": return o[0] == "raised"
-    if fid == "literal-backslash-n-backslash-r": return o[0] == "ok" and any(it == ["br"] for p in flat(o) for it in p[2])
-    if fid == "crlf-kept-in-untranslated-stream": return o[0] == "ok" and any(it[0] == "\r" for p in flat(o) for it in p[2])
-    return False
+def coqc_case(path, timeout=1800):
+    """evaluate one case file.  The evaluation runs with a raised oom_score_adj so that under memory pressure from other jobs the
+    operating system kills it rather than the check, and an evaluation that was killed or could not start (non-zero exit without a
+    Coq error message, not a timeout) is repeated."""
+    import time
+    rc, out = 1, ""
+    for attempt in range(5):
+        rc, out = C.sh(["sh", "-c", 'echo 700 > /proc/$$/oom_score_adj 2>/dev/null; exec coqc -Q "$0" TT "$1"', C.COQ, path], timeout, cwd=os.path.dirname(path))
+        if rc in (0, 124) or "Error" in out: break          # done, timed out, or a genuine Coq error; anything else: killed / could not start
+        time.sleep(15 * (attempt + 1))
+    return rc, out
 
 
 def replay(run, path):
@@ -481,6 +599,9 @@ def replay(run, path):
     if d.get("abstract_file"):
         body += f"Definition gs : list gcase := [({d['abstract_file']}, {C.boolean(tr)}, {C.text(txt)}, {l_out(o)})].\n"
         body += "Eval vm_compute in check_all (map (fun g => model_ok (tc_of g)) gs).\nEval vm_compute in check_all (map spec_ok gs).\n"
+    elif d.get("written_cues"):
+        body += f"Definition ws : list wcase := [({d['written_cues']}, {C.boolean(tr)}, {C.text(txt)}, {l_out(o)})].\n"
+        body += "Eval vm_compute in check_all (map (fun w => let '(_, tr, txt, out) := w in model_ok (tr, txt, out)) ws).\nEval vm_compute in check_all (map wspec_strict ws).\n"
     else:
         body += f"Definition ts : list tcase := [({C.boolean(tr)}, {C.text(txt)}, {l_out(o)})].\n"
         body += "Eval vm_compute in check_all (map model_ok ts).\nEval vm_compute in check_all (map model_ok ts).\n"
@@ -521,7 +642,7 @@ def main():
         return run.finish()
     if changed: run.log("tables regenerated:", changed)
     ok, log = run.build(["Proofs/C10/Time.vo", "Proofs/C10/Lines.vo", "Proofs/C10/Text.vo", "Proofs/C10/Roundtrip.vo", "Proofs/C10/NoFinalEol.vo",
-                         "Proofs/C10/Font.vo", "Proofs/C10/Refs.vo", "Proofs/C10/Tags.vo", "Proofs/C10/Brace.vo", "Proofs/C10/Witness.vo",
+                         "Proofs/C10/Font.vo", "Proofs/C10/Refs.vo", "Proofs/C10/Tags.vo", "Proofs/C10/Brace.vo", "Proofs/C10/Writer.vo", "Proofs/C10/Witness.vo",
                          "Model/SrtReaderCases.vo"], clean=(run.tier == "thorough"))
     proofs_ok = ok and run.theorems()
     if not ok: run.proof_log = log[-2500:]
@@ -534,9 +655,9 @@ def main():
     if os.environ.get("VERIF_REPLAY"):
         return replay(run, os.environ["VERIF_REPLAY"])
     thorough = run.tier == "thorough"
-    n_gram, n_writer, n_mal = (7000, 1800, 2200) if thorough else (330, 90, 110)
+    n_gram, n_writer, n_mal, n_unc = (7000, 1800, 2200, 4000) if thorough else (330, 90, 110, 220)
 
-    gcases, tcases = [], []        # (kind, file, translated, text, out) / (kind, translated, text, out)
+    gcases, tcases, wcases = [], [], []        # (kind, file, translated, text, out) / (kind, translated, text, out) / (cues, translated, text, out)
     sfail_py = []                   # failures decided in python: shape / float times
     hist = dict(cues={}, lines={}, mode={"translated": 0, "stringio": 0}, crlf=0, kinds={})
     def bump(d, k): d[k] = d.get(k, 0) + 1
@@ -560,7 +681,7 @@ def main():
         f = gen_file(rng, gen_features(rng)); txt = print_file(f)
         tr = rng.random() < 0.5
         add_g("grammar", f, txt, tr); base_texts.append(txt)
-    n_out = 0
+    n_out = n_wout = 0
     for _ in range(n_writer):
         d = gen_doc(rng)
         try:
@@ -570,20 +691,32 @@ def main():
         f = deparse(txt); tr = rng.random() < 0.5
         if f is None: n_out += 1; add_t("writer-outside-grammar", txt, tr)
         else: add_g("writer", f, txt, tr)
+        cs = deparse_w(txt)
+        if cs is None: n_wout += 1
+        else:
+            o = run_impl(txt, tr)
+            if o[0] == "shape": sfail_py.append(("writer", txt, tr, o[1]))
+            else:
+                wcases.append((cs, tr, txt, o)); bump(hist["kinds"], "writer-as-described")
+                if any(c["end"] >= 3600000000 for c in cs): hist["writer_beyond_999h"] = hist.get("writer_beyond_999h", 0) + 1
     for k in range(n_mal):
         txt = mutate(rng, rng.choice(base_texts)[:rng.choice([400, 400, 2000])]) if k % 2 else gen_handmade(rng)
         txt = "".join(ch for ch in txt if not 0xD800 <= ord(ch) <= 0xDFFF)
         add_t("malformed", txt, rng.random() < 0.5)
+    for k in range(n_unc):
+        txt = "".join(ch for ch in gen_unconstrained(rng) if not 0xD800 <= ord(ch) <= 0xDFFF)
+        add_t("unconstrained", txt, rng.random() < 0.5)
     logging.disable(logging.NOTSET)
-    run.log(f"implementation run on {len(gcases)} grammar/writer files and {len(tcases)} other texts ({n_out} writer outputs outside the grammar)")
+    run.log(f"implementation run on {len(gcases)} grammar/writer files, {len(wcases)} writer outputs as described by Spec/SrtWriterOut.v and {len(tcases)} other texts "
+            f"({n_out} writer outputs outside the grammar, {n_wout} outside the description)")
 
     # ---- case files
     C.clean_cases("Cases_C10_")
-    shards = []; cur = dict(g=[], t=[], size=0)
+    shards = []; cur = dict(g=[], t=[], w=[], size=0)
     def flush():
         nonlocal cur
-        if cur["g"] or cur["t"]: shards.append(cur)
-        cur = dict(g=[], t=[], size=0)
+        if cur["g"] or cur["t"] or cur["w"]: shards.append(cur)
+        cur = dict(g=[], t=[], w=[], size=0)
     for idx, (kind, f, tr, txt, o) in enumerate(gcases):
         lit = f"({l_file(f)}, {C.boolean(tr)}, {C.text(txt)}, {l_out(o)})"
         if cur["size"] + len(lit) > 180000 and cur["size"]: flush()
@@ -592,62 +725,71 @@ def main():
         lit = f"({C.boolean(tr)}, {C.text(txt)}, {l_out(o)})"
         if cur["size"] + len(lit) > 180000 and cur["size"]: flush()
         cur["t"].append((idx, lit)); cur["size"] += len(lit)
+    for idx, (cs, tr, txt, o) in enumerate(wcases):
+        lit = f"({l_wcues(cs)}, {C.boolean(tr)}, {C.text(txt)}, {l_out(o)})"
+        if cur["size"] + len(lit) > 180000 and cur["size"]: flush()
+        cur["w"].append((idx, lit)); cur["size"] += len(lit)
     flush()
     paths = []
     for k, sh in enumerate(shards):
         txt = HEADER + "Definition gs : list gcase := [\n" + ";\n".join(l for _, l in sh["g"]) + "].\n" \
               + "Definition ts : list tcase := [\n" + ";\n".join(l for _, l in sh["t"]) + "].\n" \
+              + "Definition ws : list wcase := [\n" + ";\n".join(l for _, l in sh["w"]) + "].\n" \
               + "".join(f"Eval vm_compute in check_all (map {e} gs).\n" for e in GEVALS) \
-              + "".join(f"Eval vm_compute in check_all (map {e} ts).\n" for e in TEVALS)
+              + "".join(f"Eval vm_compute in check_all (map {e} ts).\n" for e in TEVALS) \
+              + "".join(f"Eval vm_compute in check_all (map {e} ws).\n" for e in WEVALS)
         p = f"{C.GEN}/Cases_C10_{k}.v"; open(p, "w").write(txt); paths.append(p)
-    res = C.coqc_many(paths, 1800)
-    names = ["print_ok", "g_model_ok", "g_modelled", "spec_ok", "spec_strict", "model_spec", "brace", "stray", "backslash", "crlf", "t_model_ok", "t_modelled"]
+    # at most 8 case files at a time (other checks share the machine; a case file needs about 0.6 GB)
+    from concurrent.futures import ThreadPoolExecutor
+    with ThreadPoolExecutor(max(1, min(int(os.environ.get("C10_JOBS", "8")), C.NCPU))) as ex:
+        res = dict(zip(paths, ex.map(coqc_case, paths)))
+    names = ["print_ok", "g_model_ok", "g_modelled", "spec_ok", "model_spec", "t_model_ok", "t_modelled",
+             "w_print_ok", "w_spec_ok", "w_spec_strict", "w_notrig", "w_model_spec"]
     bad = {n: [] for n in names}; broken = []
     for sh, p in zip(shards, paths):
         rc, out = res[p]
         flat_out = " ".join(out.split())
         ms = re.findall(r"=\s*\(\s*(\d+)\s*,\s*(\[[^\]]*\]|nil)\s*\)", flat_out)
         if rc != 0 or len(ms) != len(names):
-            broken.append((p, out[-600:])); continue
+            broken.append((p, f"exit {rc}: " + out[-600:])); continue
         for n, (cnt, b) in zip(names, ms):
-            ids = [i for i, _ in (sh["t"] if n.startswith("t_") else sh["g"])]
+            ids = [i for i, _ in (sh["t"] if n.startswith("t_") else sh["w"] if n.startswith("w_") else sh["g"])]
             if int(cnt) != len(ids): broken.append((p, f"{n}: {cnt} results for {len(ids)} cases")); continue
             bad[n] += [ids[int(x)] for x in re.findall(r"\d+", b)]
     if not broken: C.clean_cases("Cases_C10_")
     n_unmod = len(bad["g_modelled"]) + len(bad["t_modelled"])
     run.log(f"{len(paths)} case files: model/code mismatches {len(bad['g_model_ok']) + len(bad['t_model_ok'])}, unmodelled {n_unmod}, "
-            f"S failures outside findings {len(bad['spec_ok'])}, incl. findings {len(bad['spec_strict'])}, M-vs-S on samples {len(bad['model_spec'])}, "
-            f"printer/grammar mismatches {len(bad['print_ok'])}, broken files {len(broken)}")
+            f"S failures on the code's results {len(bad['spec_ok'])}, M-vs-S on samples {len(bad['model_spec'])}, "
+            f"printer/grammar mismatches {len(bad['print_ok'])}, writer description: printer mismatches {len(bad['w_print_ok'])}, S failures {len(bad['w_spec_ok'])} "
+            f"(+{len(set(bad['w_spec_strict']) - set(bad['w_spec_ok']))} under the recorded finding), broken files {len(broken)}")
 
     # ---- verdict
     def g_replay(i):
         kind, f, tr, txt, o = gcases[i]
         return dict(kind=kind, text=txt, stream="text-mode file (universal newlines)" if tr else "io.StringIO", implementation=(flat(o) if o[0] == "ok" else list(o)),
                     abstract_file=l_file(f), how="ttconv.srt.reader.to_model on `text`; S: coq/Spec/SrtCueSpec.v `cues` of abstract_file")
-    trig_sets = {"brace-short-tags": set(bad["brace"]), "stray-end-tag": set(bad["stray"]),
-                 "literal-backslash-n-backslash-r": set(bad["backslash"]), "crlf-kept-in-untranslated-stream": set(bad["crlf"])}
-    fired = {k: 0 for k in trig_sets}
-    unexcused = list(bad["spec_ok"])
-    for i in bad["spec_strict"]:
-        if i in bad["spec_ok"]: continue
-        for fid, st in trig_sets.items():
-            if i in st:
-                fired[fid] += 1
-                if not run.known(fid, f"e.g. {gcases[i][3][:60]!r}"):
-                    unexcused.append(i)       # trigger fires but the finding is not listed any more
-                break
-    stale = []
-    for fid in trig_sets:
-        if witness_fires(fid):
-            if not run.known(fid, "witness " + repr(FINDING_WITNESSES[fid])):
-                run.violation(f"finding {fid} shows on the implementation but is not listed", dict(kind="S-on-code", finding=fid, text=FINDING_WITNESSES[fid]))
-        else:
-            stale.append(fid + ": witness no longer fails")
-    rc, out = C.coqc(C.COQ + "/Findings/C10.v", 600)
-    if rc != 0: stale.append("Findings/C10.v no longer compiles: " + out[-300:])
-    if stale: run.cov["stale_findings"] = stale
+    unexcused = list(bad["spec_ok"])          # no finding is recorded for C10 any more: every S failure is a violation
+    outcome_hist = {}
+    for c in tcases:
+        k = c[0] + ":" + (c[3][0] if c[3][0] != "raised" else c[3][1]); outcome_hist[k] = outcome_hist.get(k, 0) + 1
+    unmod_hist = {}
+    for i in bad["t_modelled"]: unmod_hist[tcases[i][0]] = unmod_hist.get(tcases[i][0], 0) + 1
 
     s_violation = False
+    # the recorded finding: reported only when the code really fails on an output its trigger covers
+    under_finding = sorted(set(bad["w_spec_strict"]) & set(bad["w_notrig"]))
+    if under_finding and not run.known(HOURS_FINDING, f"e.g. {wcases[under_finding[0]][2][:70]!r} is read as {wcases[under_finding[0]][3][0]}"):
+        bad["w_spec_ok"] += under_finding
+    rc, out = C.coqc(C.COQ + "/Findings/C10.v", 600)
+    stale = []
+    if rc != 0: stale.append("Findings/C10.v no longer compiles: " + out[-300:])
+    if stale: run.cov["stale_findings"] = stale
+    if bad["w_spec_ok"]:
+        i = min(set(bad["w_spec_ok"]), key=lambda j: (len(wcases[j][2]), j)); s_violation = True
+        cs, tr, txt, o = wcases[i]
+        run.violation(f"reading the SRT writer's own output does not return the cues that were written ({len(set(bad['w_spec_ok']))} outputs)",
+                      dict(kind="writer", text=txt, stream="text-mode file (universal newlines)" if tr else "io.StringIO", implementation=(flat(o) if o[0] == "ok" else list(o)),
+                           written_cues=l_wcues(cs), how="ttconv.srt.reader.to_model on `text` (an output of ttconv.srt.writer.from_model); S: coq/Spec/SrtWriterOut.v `wmeaning` of written_cues"))
     if sfail_py:
         kind, txt, tr, msg = sfail_py[0]; s_violation = True
         run.violation(f"result of to_model is not one paragraph per cue with exact rational times: {msg}",
@@ -663,8 +805,10 @@ def main():
     if mm:
         k, i = mm[0]; c = gcases[i] if k == "g" else tcases[i]
         tie.append(f"correspondence Model/SrtReader.v vs srt/reader.py disagrees on {len(mm)} texts, first ({c[0]}) {c[-2][:200]!r} -> implementation {str(c[-1])[:300]}")
+    if bad["w_print_ok"]: tie.append(f"harness parse of the writer's output disagrees with Spec/SrtWriterOut.v `wprint`/`wwf` on {len(bad['w_print_ok'])} outputs, first {wcases[bad['w_print_ok'][0]][2][:200]!r}")
+    if bad["w_model_spec"]: tie.append(f"M differs from S on {len(bad['w_model_spec'])} writer outputs outside the recorded finding (the writer theorem's statement would be false), first {wcases[bad['w_model_spec'][0]][2][:200]!r}")
     if bad["print_ok"]: tie.append(f"harness printer / grammar disagree with Spec/SrtCueSpec.v on {len(bad['print_ok'])} files, first {gcases[bad['print_ok'][0]][3][:200]!r}")
-    if bad["model_spec"]: tie.append(f"M differs from S on {len(bad['model_spec'])} generated files outside all findings (theorem statement would be false), first {gcases[bad['model_spec'][0]][3][:200]!r}")
+    if bad["model_spec"]: tie.append(f"M differs from S on {len(bad['model_spec'])} generated grammar files (the round-trip theorem's statement would be false), first {gcases[bad['model_spec'][0]][3][:200]!r}")
     if broken: tie.append(f"case files did not evaluate: {broken[0]}")
     if tie and not s_violation:
         first = None
@@ -675,31 +819,38 @@ def main():
                                            correspondence="Model/SrtReader.v to_model vs ttconv.srt.reader.to_model", first_mismatch=first), found_input=False)
 
     nontrivial = len({(c[3], c[2]) for c in gcases if c[1]["cues"]} | {(c[2], c[1]) for c in tcases})
-    total = len(gcases) + len(tcases)
+    total = len(gcases) + len(tcases) + len(wcases)
     sample = None
     for c in gcases:
         if c[4][0] == "ok" and 1 <= len(c[1]["cues"]) <= 2 and len(c[3]) < 200: sample = dict(text=c[3], cues=flat(c[4])); break
     if sample is None and gcases: sample = dict(text=gcases[0][3][:400], implementation=str(gcases[0][4])[:400])
     if sample is None and tcases: sample = dict(text=tcases[0][2][:400], implementation=str(tcases[0][3])[:400])
-    run.cov.update(evaluations=total * 2 + len(gcases) * 3, distinct_nontrivial=nontrivial,
+    run.cov.update(evaluations=total * 2 + len(gcases) * 3 + len(wcases) * 3, distinct_nontrivial=nontrivial,
                    rule="evaluations = texts fed to ttconv.srt.reader.to_model, each compared in Coq with M (tree + exact times) and, for grammar / "
                         "writer files, judged by S (cues f) and cross-checked (print_file f = text, wf_file f, M vs S). Inputs: files printed from random "
                         "abstract cue files (1-50 cues, HH and HHH hours, minutes/seconds 00-99, ms 000-999, 1-5 lines, nested/adjacent b/i/u/font tags in "
-                        "angle and brace syntax, character references, CRLF/LF, blank-line runs, odd counters), outputs of ttconv.srt.writer.from_model over "
-                        "random documents, and a malformed stream (M = code only). Each file is read through io.StringIO or through a text-mode file with "
-                        "universal newlines. distinct_nontrivial = distinct (text, stream) pairs with at least one cue or from the malformed stream.",
+                        "angle and short/long brace syntax, closers that close nothing, character references, CRLF/LF, blank-line runs, odd counters), outputs "
+                        "of ttconv.srt.writer.from_model over random documents (judged twice: as grammar files and as instances of the writer description), "
+                        "a mutation stream and an unconstrained stream (M = code only: document / None / exception class). Each text is read through "
+                        "io.StringIO or through a text-mode file with universal newlines. distinct_nontrivial = distinct (text, stream) pairs with at least "
+                        "one cue or from the malformed streams.",
                    samples=[sample] if sample else [], input_kinds=hist["kinds"], cues_per_file=hist["cues"], lines_per_cue=hist["lines"], stream=hist["mode"],
-                   crlf_files=hist["crlf"], unmodelled_by_M=n_unmod, writer_outputs_outside_grammar=n_out,
+                   crlf_files=hist["crlf"], unmodelled_by_M=n_unmod, writer_outputs_outside_grammar=n_out, writer_outputs_outside_description=n_wout,
+                   writer_outputs_as_described=len(wcases), writer_outputs_beyond_999h=hist.get("writer_beyond_999h", 0),
                    model_code_mismatches=len(mm), s_failures_on_code=len(set(unexcused)) + len(sfail_py),
-                   s_failures_excused_by_findings=fired)
+                   outcomes_outside_grammar=outcome_hist, unmodelled_by_kind=unmod_hist)
     run.assumptions += [
-        "html.parser.HTMLParser (CPython 3.12) is replaced in M by a hand-written tokenizer (start/end/self-closing tags with attributes, character "
-        "references via the html.unescape tables, data); agreement is established by the correspondence run only, and M answers Unmodelled on "
-        "constructs it does not transcribe (<!, <?, unterminated tags/quotes, <script>/<style>, non-ASCII colour values)",
-        "S (Spec/SrtCueSpec.v) is my reading of the SubRip conventions: a closing tag without opener encloses nothing; brace tags are {b} {i} {u} and "
-        "their long forms; a bare '&', '<' or '{' in cue text is outside the grammar (SubRip has no escape syntax)",
+        "html.parser.HTMLParser (CPython 3.12) is replaced in M by a hand-written tokenizer (start/end/self-closing tags with attributes and the "
+        "end tag's name as endtagfind / tagfind_tolerant extract it, character references via the html.unescape tables, data); agreement is "
+        "established by the correspondence run only, and M answers Unmodelled on constructs it does not transcribe (<!, <?, unterminated "
+        "tags/quotes, <script>/<style>, non-ASCII tag names or colour values)",
+        "S (Spec/SrtCueSpec.v) is my reading of the SubRip conventions: a closing tag that does not name the innermost open tag closes nothing "
+        "(and one that does name it is that tag's closer, so it is not in the grammar as a stray closer); brace tags are {b} {i} {u} and their "
+        "long forms; a bare '&', '<' or '{' in cue text is outside the grammar (SubRip has no escape syntax)",
+        "Spec/SrtWriterOut.v describes the SRT writer's output independently of the writer's model; that every output is of this form is "
+        "established per generated document (the output is parsed back and `wprint` of the result compared with it in Coq), not proved",
         "the harness maps the Python document to (times, Span/Br/Text tree with FontWeight/FontStyle/TextDecoration/Color) and fails closed on anything else",
-        "CRLF files are in the grammar when read through a text-mode file (what tt.py does); through a non-translating stream the reader keeps U+000D (recorded finding)"]
+        "CR LF files are in the grammar through both kinds of stream (text-mode file with universal newlines, io.StringIO)"]
     return run.finish(["harness/gen_c10.py (tables of re \\s / \\d, NamedColors, html.unescape; fail-closed)",
                        "harness/c10.py canon_doc (Python document -> canonical tree) and the case-file printer"])
 
